@@ -148,6 +148,7 @@ func genCfg(rnd *tr.Rand, focus string) *caseCfg {
 		c.pShutdown = 0
 		if rnd.Chance(25) {
 			c.proto, c.udp = "udp", false
+			c.pElClose = rnd.Pick([]int{0, 4}) // also reaches AsyncWrite after close on a connected-UDP socket
 		}
 	}
 	if focus == "stale" {
